@@ -86,6 +86,11 @@ class Contract:
                 A[n] = v
                 continue
             if isinstance(v, PyFunc) and v.term is None:
+                if v.fn is None:
+                    # result of an unmodelled attribute / call used as an argument: arbitrary value on a tainted path
+                    A[n] = fresh(f"havoc_{n}")
+                    st2 = st2.tainted()
+                    continue
                 A[n] = v
                 continue
             t, st2 = en.term(v, st2.copy(heap=s.heap if s.heap is not st.heap else st2.heap))
